@@ -76,7 +76,24 @@ strlen(const char *s)
 #endif
 
 /* ------------------------------------------------------------------ the real file */
+#if defined(H4V_CBMC) && defined(VGP_ALLOC_OK)
+/* Environment assumption of the bounded codec round trip ONLY: allocations succeed (what
+   `cbmc --no-malloc-may-fail` means; dfcc bakes the failure mode in at goto-instrument time and
+   the driver passes flags to cbmc only).  Without it vunpackvg dereferences the unchecked
+   malloc results of vgp.c:944/954 (reported as a side finding). */
+static void *
+vgp_malloc_ok(size_t n)
+{
+    void *p = malloc(n);
+    __CPROVER_assume(p != NULL);
+    return p;
+}
+#define malloc(n) vgp_malloc_ok(n)
+#endif
 #include "vgp.c"
+#if defined(H4V_CBMC) && defined(VGP_ALLOC_OK)
+#undef malloc
+#endif
 
 /* ------------------------------------------------------------------ predicates */
 /* representation invariant of an attached VGROUP.  msize: 64 at creation, max(nvelt,64) after
@@ -106,8 +123,9 @@ int32 vinsertpair(VGROUP *vg, uint16 tag, uint16 ref)
     __CPROVER_ensures(__CPROVER_old(vg->nvelt) == 65535 ==> __CPROVER_return_value == FAIL)
     /* a failure leaves the member list as it was (count and every member) */
     __CPROVER_ensures(__CPROVER_return_value == FAIL ==> vg->nvelt == __CPROVER_old(vg->nvelt))
-    __CPROVER_ensures((__CPROVER_return_value == FAIL && __CPROVER_old(vg->nvelt) == 65535 && g_k < 65535) ==>
-                      (vg->tag[g_k] == __CPROVER_old(vg->tag[g_k]) && vg->ref[g_k] == __CPROVER_old(vg->ref[g_k])))
+    __CPROVER_ensures((__CPROVER_return_value == FAIL && __CPROVER_old(vg->nvelt) == 65535) ==>
+                      (vg->tag != NULL && vg->ref != NULL && vg->msize >= 65535 &&
+                       (g_k < 65535 ==> (vg->tag[g_k] == __CPROVER_old(vg->tag[g_k]) && vg->ref[g_k] == __CPROVER_old(vg->ref[g_k])))))
     /* the only other reason to fail is an allocation failure while growing */
     __CPROVER_ensures((__CPROVER_return_value == FAIL && __CPROVER_old(vg->nvelt) != 65535) ==>
                       (int)__CPROVER_old(vg->nvelt) >= __CPROVER_old(vg->msize))
@@ -203,8 +221,7 @@ int32 Vnrefs(int32 vkey, int32 tag)
     __CPROVER_ensures(VKEY_OK(vkey) ==> (__CPROVER_return_value >= 0 && __CPROVER_return_value <= (int32)g_vg->nvelt))
     __CPROVER_ensures((VKEY_OK(vkey) && g_k < g_vg->nvelt && __CPROVER_return_value == 0) ==> g_vg->tag[g_k] != (uint16)tag)
     __CPROVER_ensures((VKEY_OK(vkey) && g_k < g_vg->nvelt && __CPROVER_return_value == (int32)g_vg->nvelt) ==>
-                      g_vg->tag[g_k] == (uint16)tag)
-    __CPROVER_ensures((VKEY_OK(vkey) && g_vg->nvelt == 1) ==> __CPROVER_return_value == (g_vg->tag[0] == (uint16)tag ? 1 : 0));
+                      g_vg->tag[g_k] == (uint16)tag);
 
 /* Vgettagref: member number `which` */
 int Vgettagref(int32 vkey, int32 which, int32 *tag, int32 *ref)
@@ -551,4 +568,130 @@ h_Vsetclass(void)
     H4V_COVER(r == SUCCEED && g_len > 64, "Vsetclass long name");
     H4V_COVER(r == SUCCEED && g_len == 0, "Vsetclass empty name");
     H4V_CANARY("Vsetclass end");
+}
+
+/* ------------------------------------------------------------------ vpackvg / vunpackvg (C08, C02)
+   Bounded stand-in: <= RT_MAXN members, names <= 3 characters, <= RT_MAXA attributes.
+   unpack(pack(vg)) == vg field by field, *size == number of bytes written, nothing written
+   beyond *size, buffer of the size Vdetach computes is not overrun (bounds checks). */
+#ifndef RT_MAXN
+#define RT_MAXN 3 /* members */
+#endif
+#ifndef RT_MAXA
+#define RT_MAXA 2 /* attributes */
+#endif
+#define RT_BUFSZ (sizeof(VGROUP) + 3 + 3 + RT_MAXN * 4 + RT_MAXA * sizeof(vg_attr_t) + 1)
+static char *
+rt_name(char c0, char c1, char c2, int len)
+{
+    if (len < 0)
+        return NULL; /* no name */
+    char *s = malloc(4);
+    H4V_ASSUME(s != NULL);
+    s[0] = c0;
+    s[1] = c1;
+    s[2] = c2;
+    s[3] = '\0';
+    H4V_ASSUME(len <= 3);
+    s[len] = '\0';
+    for (int i = 0; i < 3; i++)
+        H4V_ASSUME(i >= len || s[i] != '\0');
+    return s;
+}
+
+/* the same name: equal strings, where "no name" and the empty name are the same thing
+   (the record stores only a length) */
+static int
+rt_same_name(const char *a, const char *b)
+{
+    if (a == NULL || a[0] == '\0')
+        return b == NULL || b[0] == '\0';
+    if (b == NULL)
+        return 0;
+    for (int i = 0; i < 4; i++) {
+        if (a[i] != b[i])
+            return 0;
+        if (a[i] == '\0')
+            return 1;
+    }
+    return 0;
+}
+
+void
+h_vg_roundtrip(void)
+{
+    HAVOC_GHOSTS();
+    H4V_HAVOC(size_t, g_c);
+    MK_VG_SCALARS(vg);
+    H4V_ASSUME(vg->nvelt <= RT_MAXN && vg->msize == 4);
+#ifdef RT_NFIX
+    H4V_ASSUME(vg->nvelt == RT_NFIX); /* one run per member count */
+#endif
+    H4V_ND(uint16, mt0); H4V_ND(uint16, mt1); H4V_ND(uint16, mt2);
+    H4V_ND(uint16, mr0); H4V_ND(uint16, mr1); H4V_ND(uint16, mr2);
+    vg->tag = malloc(4 * sizeof(uint16));
+    vg->ref = malloc(4 * sizeof(uint16));
+    H4V_ASSUME(vg->tag != NULL && vg->ref != NULL);
+    vg->tag[0] = mt0; vg->tag[1] = mt1; vg->tag[2] = mt2; vg->tag[3] = 0;
+    vg->ref[0] = mr0; vg->ref[1] = mr1; vg->ref[2] = mr2; vg->ref[3] = 0;
+    H4V_ND(char, n0); H4V_ND(char, n1); H4V_ND(char, n2); H4V_ND(int, nlen);
+    H4V_ND(char, c0); H4V_ND(char, c1); H4V_ND(char, c2); H4V_ND(int, clen);
+    vg->vgname  = rt_name(n0, n1, n2, nlen);
+    vg->vgclass = rt_name(c0, c1, c2, clen);
+    H4V_ND(uint16, vg_extag); H4V_ND(uint16, vg_exref); H4V_ND(int16, vg_version); H4V_ND(int16, vg_more);
+    H4V_ND(uint32, vg_flags); H4V_ND(int32, vg_nattrs);
+    H4V_ND(uint16, a0t); H4V_ND(uint16, a0r); H4V_ND(uint16, a1t); H4V_ND(uint16, a1r);
+    /* record versions the library knows (<= 4); version 4 is written exactly when flags != 0 */
+    H4V_ASSUME(vg_version <= VSET_NEW_VERSION && (vg_version != VSET_NEW_VERSION || vg_flags != 0));
+    H4V_ASSUME(vg_nattrs >= 0 && vg_nattrs <= RT_MAXA);
+    if (!(vg_flags & VG_ATTR_SET))
+        vg_nattrs = 0;
+    vg->extag = vg_extag; vg->exref = vg_exref; vg->version = vg_version; vg->more = vg_more;
+    vg->flags = vg_flags; vg->nattrs = vg_nattrs;
+    vg->alist = malloc(2 * sizeof(vg_attr_t));
+    H4V_ASSUME(vg->alist != NULL);
+    vg->alist[0].atag = a0t; vg->alist[0].aref = a0r; vg->alist[1].atag = a1t; vg->alist[1].aref = a1r;
+
+    size_t nl = vg->vgname ? (size_t)nlen : 0, cl = vg->vgclass ? (size_t)clen : 0;
+    /* the buffer Vdetach provides */
+    size_t need = sizeof(VGROUP) + nl + cl + (size_t)vg->nvelt * 4 + (size_t)vg->nattrs * sizeof(vg_attr_t) + 1;
+    /* (allocated at its maximum here; the record must fit into `need`) */
+    uint8 *buf = malloc(RT_BUFSZ);
+    H4V_ASSUME(buf != NULL);
+    H4V_ASSUME(g_c < RT_BUFSZ);
+    uint8 b0 = buf[g_c];
+    int32 size = -1;
+    int   r    = vpackvg(vg, buf, &size);
+    H4V_CHECK(r == SUCCEED, "vpackvg succeeds");
+    /* *size == bytes written: the record layout of the file format */
+    int32 expect = 2 + 4 * (int32)vg->nvelt + 2 + (int32)nl + 2 + (int32)cl + 4 +
+                   (vg_flags ? 4 + ((vg_flags & VG_ATTR_SET) ? 4 + 4 * vg_nattrs : 0) : 0) + 4 + 1;
+    H4V_CHECK(size == expect, "vpackvg: *size is the record length");
+    H4V_CHECK((size_t)size <= need, "vpackvg: record fits the buffer Vdetach allocates");
+    H4V_CHECK(g_c < (size_t)size || buf[g_c] == b0, "vpackvg: nothing written beyond *size");
+    H4V_CHECK(vg->version == (vg_flags && vg_version < VSET_NEW_VERSION ? VSET_NEW_VERSION : vg_version),
+              "vpackvg: version raised to 4 only when flags are present");
+
+    VGROUP *vg2 = malloc(sizeof(VGROUP));
+    H4V_ASSUME(vg2 != NULL);
+    memset(vg2, 0, sizeof(VGROUP));
+    int r2 = vunpackvg(vg2, buf, (int)size);
+    H4V_COVER(r2 == SUCCEED && nl == 3 && cl == 0 && vg_nattrs == RT_MAXA, "roundtrip full size");
+    H4V_COVER(r2 == SUCCEED && vg_flags == 0, "roundtrip old-style record");
+    if (r2 == SUCCEED) {
+        H4V_CHECK(vg2->nvelt == vg->nvelt, "roundtrip nvelt");
+        H4V_CHECK(vg2->msize >= (int)vg2->nvelt && vg2->msize >= MAXNVELT, "roundtrip capacity");
+        H4V_CHECK(g_k >= vg->nvelt || (vg2->tag[g_k] == vg->tag[g_k] && vg2->ref[g_k] == vg->ref[g_k]), "roundtrip member g_k");
+        H4V_CHECK(rt_same_name(vg->vgname, vg2->vgname), "roundtrip vgname");
+        H4V_CHECK(rt_same_name(vg->vgclass, vg2->vgclass), "roundtrip vgclass");
+        H4V_CHECK(vg2->extag == vg->extag && vg2->exref == vg->exref, "roundtrip extag/exref");
+        H4V_CHECK(vg2->version == vg->version && vg2->more == vg->more, "roundtrip version/more");
+        H4V_CHECK(vg2->flags == vg->flags, "roundtrip flags");
+        if (vg->flags & VG_ATTR_SET) {
+            H4V_CHECK(vg2->nattrs == vg->nattrs, "roundtrip nattrs");
+            H4V_CHECK(vg->nattrs < 1 || (vg2->alist[0].atag == a0t && vg2->alist[0].aref == a0r), "roundtrip attr 0");
+            H4V_CHECK(vg->nattrs < 2 || (vg2->alist[1].atag == a1t && vg2->alist[1].aref == a1r), "roundtrip attr 1");
+        }
+    }
+    H4V_CANARY("vg_roundtrip end");
 }
